@@ -2,17 +2,17 @@
    freedom; quiescence; the witnesses that refute the unguarded statements. *)
 From Coq Require Import List ZArith Bool Arith Lia.
 From Model Require Import CacheConc CacheConcSpec.
-From Proofs Require Import CacheConcBase CacheConcFields CacheConcIdent CacheConcSteps CacheConcInv CacheConcMain.
+From Proofs Require Import CacheConcBase CacheConcFields CacheConcIdent CacheConcSteps CacheConcInv CacheConcAux CacheConcMain.
 Import ListNotations.
 
-Lemma no_holder_init : forall freq frac rows progs i o e, ~ holder (init freq frac rows progs) i o e.
+Lemma no_holder_init : forall dc freq frac rows progs i o e, ~ holder (initc dc freq frac rows progs) i o e.
 Proof.
-  intros freq frac rows progs i o e (t & Ht & [H | H]); simpl in *.
+  intros dc freq frac rows progs i o e (t & Ht & [H | H]); simpl in *.
   - contradiction.
   - discriminate.
 Qed.
 
-Lemma inv_init : forall freq frac rows progs, Inv (init freq frac rows progs).
+Lemma inv_init : forall dc freq frac rows progs, Inv (initc dc freq frac rows progs).
 Proof.
   intros. constructor; simpl;
     try (intros; discriminate);
@@ -28,13 +28,18 @@ Proof.
   - intros t x _ [].
 Qed.
 
+(* both modes of the connection (cache=True / cache=False) *)
+Theorem inv_reachable_modes : forall dc freq frac rows progs s,
+  greach guard (initc dc freq frac rows progs) s -> Inv s.
+Proof.
+  intros dc freq frac rows progs s H. induction H as [| s t s' Hr IH Hg Hs].
+  - apply inv_init.
+  - eapply step_inv; eauto. exact (proj1 (aux_greach _ _ _ _ _ _ _ Hr)).
+Qed.
+
 Theorem inv_reachable : forall freq frac rows progs s,
   greach guard (init freq frac rows progs) s -> Inv s.
-Proof.
-  intros freq frac rows progs s H. induction H as [| s t s' _ IH Hg Hs].
-  - apply inv_init.
-  - eapply step_inv; eauto.
-Qed.
+Proof. intros freq frac rows progs s H. exact (inv_reachable_modes true freq frac rows progs s H). Qed.
 
 (* ------------------------------------------------------------------ Safe *)
 Lemma slot_holder : forall s t o i e, result_of s t (RObj o i e) -> holder s i o e.
@@ -51,7 +56,7 @@ Qed.
 
 (* ------------------------------------------------------------------ deadlock freedom *)
 Definition lock_acquire_pc (p : pc) : bool :=
-  match p with F108 | U192 | E234 | A250 | K181a | L272 => true | _ => false end.
+  match p with F108 | U192 | E234 | A250 | K181a | L272 | F135 | K183a => true | _ => false end.
 
 Lemma step_none : forall s t, t < s_n s -> step s t = None ->
   finished (s_thr s t) = true \/
@@ -202,6 +207,41 @@ Theorem no_deadlock_reachable : forall freq frac rows progs s,
   (forall t, t < s_n s -> enabled s t = false) -> all_finished s.
 Proof. intros. apply no_deadlock; [eapply inv_reachable; eauto | assumption]. Qed.
 
+(* ---- the same three for both modes *)
+Theorem safe_reachable_modes : forall dc freq frac rows progs s,
+  greach guard (initc dc freq frac rows progs) s -> Safe s.
+Proof. intros. apply inv_safe. eapply inv_reachable_modes; eauto. Qed.
+
+Theorem quiescent_reachable_modes : forall dc freq frac rows progs s,
+  greach guard (initc dc freq frac rows progs) s -> all_finished s ->
+  s_lock s = None /\
+  (forall t x, result_of s t (RExc x) -> x = NotFound) /\
+  (forall t t' i o o' e, result_of s t (RObj o i e) -> result_of s t' (RObj o' i e) -> o = o') /\
+  (forall t i o, result_of s t (RObj o i (s_epoch s i)) ->
+     dget (s_strong s) i = Some o \/ dget (s_weak s) i = Some o).
+Proof. intros. apply quiescent; [eapply inv_reachable_modes; eauto | assumption]. Qed.
+
+Theorem no_deadlock_reachable_modes : forall dc freq frac rows progs s,
+  greach guard (initc dc freq frac rows progs) s ->
+  (forall t, t < s_n s -> enabled s t = false) -> all_finished s.
+Proof. intros. apply no_deadlock; [eapply inv_reachable_modes; eauto | assumption]. Qed.
+
+(* the mode never changes, every thread stays inside the branches of the mode, and without caching the strong dict
+   stays empty: holds for every schedule, guarded or not *)
+Theorem mode_reachable : forall dc freq frac rows progs s,
+  reach (initc dc freq frac rows progs) s -> Aux s /\ s_docache s = dc.
+Proof. intros dc freq frac rows progs s H. exact (aux_greach _ dc freq frac rows progs s H). Qed.
+
+(* without caching the expired flag is all expire() changes: the cache entry stays, the purge epochs stay 0 only when
+   nobody purges -- stated as: no thread of a cache=False connection ever is at a purging statement *)
+Theorem nocache_never_purges : forall freq frac rows progs s t,
+  reach (initc false freq frac rows progs) s -> t < s_n s ->
+  t_pc (s_thr s t) <> E237 /\ t_pc (s_thr s t) <> E239.
+Proof.
+  intros freq frac rows progs s t H Ht. destruct (mode_reachable _ _ _ _ _ _ H) as (A & D).
+  split; intros E; pose proof (aux_doc s A t Ht) as X; rewrite E in X; specialize (X eq_refl); congruence.
+Qed.
+
 (* ------------------------------------------------------------------ the witness against the unguarded statements
    (a schedule found by the scheduler on the real code, replayed here) *)
 Definition w_setup : list op := [Get 1%Z; Get 2%Z].
@@ -264,3 +304,39 @@ Qed.
 
 Theorem quiescent_full_refuted : ~ C09_quiescent_full.
 Proof. exact (refute_quiescent_full 100%Z 2 [1%Z; 2%Z; 3%Z] [w_setup; [Create]; [Get 4%Z]] w_get_sched created_vs_get_witness). Qed.
+
+(* ------------------------------------------------------------------ cache=False: the same race (create || get of the id
+   being created), schedule found by the scheduler on the real code with cache=0 and replayed here *)
+Definition w_noc_sched : list nat := repeat 0 46 ++ repeat 1 4 ++ repeat 2 22 ++ repeat 1 7.
+Lemma created_vs_get_nocache_witness :
+  match run (initc false 100 2 [1%Z; 2%Z; 3%Z] [w_setup; [Create]; [Get 4%Z]]) w_noc_sched with
+  | Some s => all_finished_b s = true /\ two_objects s = true
+  | None => False
+  end.
+Proof. vm_compute. split; reflexivity. Qed.
+
+Theorem inv_nocache_full_refuted : ~ C09_inv_nocache_full.
+Proof.
+  intros F. pose proof created_vs_get_nocache_witness as W.
+  pose proof (run_reach w_noc_sched (initc false 100 2 [1%Z; 2%Z; 3%Z] [w_setup; [Create]; [Get 4%Z]])) as R.
+  destruct (run (initc false 100 2 [1%Z; 2%Z; 3%Z] [w_setup; [Create]; [Get 4%Z]]) w_noc_sched) as [s |]; [| contradiction].
+  destruct W as (_ & W). apply (two_objects_unsafe s W). apply (F 100%Z 2 [1%Z; 2%Z; 3%Z] [w_setup; [Create]; [Get 4%Z]]). now apply R.
+Qed.
+
+Theorem quiescent_nocache_full_refuted : ~ C09_quiescent_nocache_full.
+Proof.
+  intros F. pose proof created_vs_get_nocache_witness as W.
+  pose proof (run_reach w_noc_sched (initc false 100 2 [1%Z; 2%Z; 3%Z] [w_setup; [Create]; [Get 4%Z]])) as R.
+  destruct (run (initc false 100 2 [1%Z; 2%Z; 3%Z] [w_setup; [Create]; [Get 4%Z]]) w_noc_sched) as [s |]; [| contradiction].
+  destruct W as (Wf & W). specialize (R s eq_refl).
+  assert (A : all_finished s).
+  { intros t Ht. unfold all_finished_b in Wf. rewrite forallb_forall in Wf. apply Wf. apply in_seq. lia. }
+  destruct (F _ _ _ _ s R A) as (_ & _ & I & _).
+  unfold two_objects in W. apply existsb_exists in W. destruct W as (a & Ha & W).
+  apply existsb_exists in W. destruct W as (b & Hb & W).
+  destruct a as [o i e | | |]; try discriminate. destruct b as [o' i' e' | | |]; try discriminate.
+  apply andb_true_iff in W. destruct W as (W & Hne). apply andb_true_iff in W. destruct W as (Hi & He).
+  apply Z.eqb_eq in Hi. apply Nat.eqb_eq in He. subst.
+  destruct (in_res_list s _ Ha) as (t & Rt). destruct (in_res_list s _ Hb) as (t' & Rt').
+  pose proof (I t t' i' o o' e' Rt Rt'). subst. rewrite Nat.eqb_refl in Hne. discriminate.
+Qed.
